@@ -55,7 +55,7 @@ run)
   apply_patch || { echo "patch does not apply"; exit 3; }
   T=$(mktemp -d /var/tmp/verif-seeded-out-XXXXXX)
   cd /verif && VERIF_REPO="$WT" VERIF_EVIDENCE_DIR=$T/evidence VERIF_REPLAY_DIR=$T/replays VERIF_SEED=${VERIF_SEED:-1} \
-    ./verif check "$PROP" --tier "$TIER" --budget "$B" 2>&1 | grep -E "^(C[0-9]+ |violation|VIOLATION|VERIF-FAULT|KNOWN|NOTE|worker|HARNESS)" | cut -c1-900 | head -${SEEDED_LINES:-12}
+    ./verif check "$PROP" --tier "$TIER" --budget "$B" 2>&1 | grep -a -E "^(C[0-9]+ |violation|VIOLATION|VERIF-FAULT|KNOWN|NOTE|worker|HARNESS)" | cut -c1-900 | head -${SEEDED_LINES:-12}
   ;;
 *) echo "usage: seeded.sh validate|run <dir> ..."; exit 3;;
 esac
